@@ -101,7 +101,12 @@ def gen(rng):
                                                                    {"kind": "prob", "p_line": 1 / 64, "p_call": 0.2},
                                                                    {"kind": "pct", "d": 2, "len": 3000})),
           "seed": rng.randrange(1 << 30)}
-    if rng.random() < 0.4:
+    if rng.random() < 0.15:
+        sc["tls"] = True  # SSLDispatcher, pending(), TLS shutdown on the way out
+    if first["mode"] in ("close_body", "close_nobody", "cb_close", "thread_close") and first.get("cb") != "on_error" and rng.random() < 0.3:
+        # a reconnect interval is configured, yet a close frame / the application's own close() must still end the run
+        sc["reconnect"] = rng.choice((S // 2, 2 * S))
+    if rng.random() < 0.4 and not sc.get("reconnect"):
         sec = gen_run(rng, allow_async=False)
         while sec.get("cb") is not None and sec.get("cb") == first.get("cb"):
             sec = gen_run(rng, allow_async=False)
@@ -195,6 +200,10 @@ def expand(item, seed):
                                    "callbacks": ALL_CBS, "policy": {"kind": "coop", "p_call": 0.0}, "seed": 3}
                         else:
                             yield {"first": r, "callbacks": ALL_CBS, "policy": {"kind": "coop", "p_call": 0.0}, "seed": 3}
+                            if not ping and mode not in ("refused",):
+                                yield {"first": r, "callbacks": ALL_CBS, "policy": {"kind": "coop", "p_call": 0.0}, "seed": 3, "tls": True}
+                            if mode in ("close_body", "close_nobody", "cb_close", "thread_close") and cb != "on_error":
+                                yield {"first": r, "callbacks": ALL_CBS, "policy": {"kind": "coop", "p_call": 0.0}, "seed": 3, "reconnect": S}
     else:
         for i in range(item["start"], item["start"] + item["count"]):
             yield gen(random.Random(derive_seed(seed, ID, i)))
@@ -309,6 +318,12 @@ def run(sc, choices=None):
         cb_all = dict(cbs)
         for k, v in over1.items():
             cb_all[k] = v
+        if sc.get("tls"):
+            ro1 = dict(ro1, tls=True)
+        if sc.get("reconnect"):
+            if first["mode"] not in ("close_body", "close_nobody", "cb_close", "thread_close") or first.get("cb") == "on_error" or sc.get("second"):
+                raise InvalidScenario("with a reconnect interval only endings that must stop the run are judged here (C15 covers the rest)")
+            ro1 = dict(ro1, reconnect=int(sc["reconnect"]))
         asc = {"conns": [spec1], "callbacks": cb_all, "run": ro1, "closer": closer, "policy": sc.get("policy"),
                "seed": sc.get("seed", 1), "runs": 1, "time_cap_s": 400, "step_cap": 800_000}
         exp2 = None
@@ -316,7 +331,7 @@ def run(sc, choices=None):
             if second["mode"] == "thread_close":
                 raise InvalidScenario("second run is never closed asynchronously")
             spec2, over2, ro2, _c2, exp2 = _conn_for(second, cbs)
-            if ro2 != ro1:
+            if ro2 != {k_: v_ for k_, v_ in ro1.items() if k_ not in ("tls", "reconnect")}:
                 # run options are fixed per app driver call: use the first run's
                 if second["mode"] == "ping_timeout":
                     raise InvalidScenario("ping settings differ between runs")
@@ -331,6 +346,11 @@ def run(sc, choices=None):
             asc["second"] = {"conns": [spec2]}
     except (KeyError, TypeError, ValueError) as e:
         raise InvalidScenario(str(e))
+    horizon = 0
+    for r_, e_ in ((first, exp1), (second, exp2)):
+        if r_ is not None:
+            horizon += max(int(r_.get("end_t", 0)), int(e_.get("end_event_t") or 0), int(r_.get("close_t", 0))) + 45 * S
+    asc["time_cap_s"] = horizon // S + 70  # the liveness bound is 30 s after the ending event: no need to simulate further
     # callbacks that act only in the second run: translate to nth by counting at run time
     asc["callbacks"] = {k: ({kk: vv for kk, vv in v.items() if kk != "run"} if v else v) for k, v in cb_all.items()}
     second_only = {k for k, v in cb_all.items() if v and v.get("run") == 2}
@@ -339,8 +359,10 @@ def run(sc, choices=None):
         asc["_second_cbs"] = {k: {kk: vv for kk, vv in cb_all[k].items() if kk != "run"} for k in second_only}
     out = _run_two(asc, choices)
     w = out["world"]
-    res.absorb(w)
+    res.absorb(w, exclude_kinds=("send", "recv", "deliver", "recv_call") if sc.get("tls") else ())
     res.info["loop_lines"] = w.k.main.lines
+    if sc.get("tls"):
+        res.probes["tls_transport"] = 1
     gate = [e for e in w.k.log if e[3] == "closer_gate"]
     fires = [e for e in w.k.log if e[3] == "closer_fires"]
     fired = bool(fires)
@@ -496,5 +518,5 @@ def _judge(res, run_, exp, r, ctx, cbs, w, async_close=False):
 
 
 def sample_view(sc, r):
-    return {"first": sc["first"], "second": sc.get("second"), "callbacks": sorted(sc.get("callbacks") or {}),
+    return {"first": sc["first"], "second": sc.get("second"), "callbacks": sorted(sc.get("callbacks") or {}), "tls": sc.get("tls"), "reconnect": sc.get("reconnect"),
             "closer": sc.get("closer"), "policy": sc.get("policy")}
